@@ -16,9 +16,10 @@ import yaml
 import yatiml
 from vlib import values
 from vlib.common import (SYMBOLIC, VERIF, install_stubs, note, pick, plain,
-                         slice_no)
+                         slice_no, tier)
 
 install_stubs(composer=False)
+QUICK = tier() == 'quick'
 
 ENCODED = [
     'yatiml.dumper.DumpFunction.__call__, DumpJsonFunction.__call__, '
@@ -177,6 +178,8 @@ def sources(f: int, x: int, bad: int, enc: int) -> bool:
     """
     if enc != 0 and x > 2:
         return True             # BOM encodings: first three alternatives
+    if QUICK and x > 11:
+        return True             # quick tier: first twelve alternatives
     r = _sources(slice_no(0), f, x, bad, enc)
     return True if r is None else r
 
